@@ -195,6 +195,13 @@ def graph_walk(g, max_zones) -> list[str]:
         p = d._parent
         if p is not None and hasattr(p, "childs") and d not in p.childs:
             errs.append(f"children: {d.id} has parent {par_str(p)}, which does not list it among its children")
+    # a device whose parent is a zone holds a role in that zone: it is the zone's sensor or one of its actuators
+    from ramses_rf.system.zones import Zone
+
+    for d in g.devices:
+        p = d._parent
+        if isinstance(p, Zone) and d is not p.sensor and d not in p.actuators:
+            errs.append(f"stray: {d.id} has zone {p.id} as its parent, whose sensor is {getattr(p.sensor, 'id', None)} and whose actuators are {sorted(a.id for a in p.actuators)}")
     for d in g.devices:
         p = d._parent
         if p is not None:
@@ -342,13 +349,25 @@ def part_b(chk: Check, rnd: random.Random, thorough: bool) -> None:
     regex_of = {(str(c), v): sch[v] for c, sch in CODES_SCHEMA.items() for v in (" I", "RQ", "RP", " W") if v in sch}
     pairs = gen.schema_pairs()
     n = 400 if thorough else 45
-    for ep in range(n):
-        h = gwrig.mutate_history(rnd, logs, max_len=120 if thorough else 80)
-        rate = rnd.choice((0.0, 0.05, 0.15, 0.4))
+    # corpus (runs first): what a controller says of one zone over time - a sensor, "no sensor" (the empty reply), another
+    # sensor; actuators, none, others - each device keeps one parent and each zone lists what points at it
+    C0 = "01:145038"
+    mk = [f"RP --- {C0} 18:006402 --:------ 000C 006 0108001099C3", f"RP --- {C0} 18:006402 --:------ 000C 006 0208001099C5"]   # (zones 01, 02 exist)
+    corpus = [
+        mk + [f"RP --- {C0} 18:006402 --:------ 000C 006 010400896853", f"RP --- {C0} 18:006402 --:------ 000C 006 01047FFFFFFF",
+         f"RP --- {C0} 18:006402 --:------ 000C 006 01040089685A", f" I --- {C0} --:------ {C0} 1F09 003 FF0532"],
+        mk + [f"RP --- {C0} 18:006402 --:------ 000C 006 01040089685A", f"RP --- {C0} 18:006402 --:------ 000C 006 020400896853",
+         f"RP --- {C0} 18:006402 --:------ 000C 006 02047FFFFFFF", f"RP --- {C0} 18:006402 --:------ 000C 006 010400896853"],
+        [f"RP --- {C0} 18:006402 --:------ 000C 012 0108001099C30108001099C4", f"RP --- {C0} 18:006402 --:------ 000C 006 01087FFFFFFF",
+         f"RP --- {C0} 18:006402 --:------ 000C 006 0208001099C3"],
+    ]
+    for ep in range(n + len(corpus)):
+        h = gwrig.mutate_history(rnd, logs, max_len=120 if thorough else 80) if ep >= len(corpus) else list(corpus[ep])
+        rate = rnd.choice((0.0, 0.05, 0.15, 0.4)) if ep >= len(corpus) else 0.0
         h = [c13.mutate_fields(rnd, f, regex_of) if rnd.random() < rate else f for f in h]
-        for _ in range(rnd.randrange(0, 4)):
+        for _ in range(rnd.randrange(0, 4) if ep >= len(corpus) else 0):
             h.insert(rnd.randrange(len(h) + 1), rnd.choice(c13.SPECIALS))
-        for _ in range(rnd.randrange(0, 4)):
+        for _ in range(rnd.randrange(0, 4) if ep >= len(corpus) else 0):
             f = gen.gen_schema_frame(rnd, pairs, extreme=True)
             if f:
                 h.insert(rnd.randrange(len(h) + 1), f)
@@ -358,6 +377,8 @@ def part_b(chk: Check, rnd: random.Random, thorough: bool) -> None:
         cps = sorted(set(rnd.sample(range(len(h)), min(len(h), rnd.randint(2, 4))) + [len(h) - 1]))
         eav = rnd.random() < 0.5
         max_zones = rnd.choice((12, 12, 12, 12, 8, 4, 1, 16, 13))
+        if ep < len(corpus):
+            cps, eav, max_zones = list(range(len(h))), False, 12
 
         async def body(loop, h=h, gaps=gaps, eav=eav, max_zones=max_zones, cps=cps):
             return await part_b_episode(loop, h, gaps, eav, max_zones, set(cps))
